@@ -147,6 +147,12 @@ func (x *Exec) VerifyFunc(fn *ssa.Function, ct *Contract) (err error) {
 	for _, r := range ct.Requires {
 		x.assume(st, env.evalBool(r.Expr))
 	}
+	x.ghostKeys = map[string]*ssa.Parameter{}
+	for _, gv := range ct.GhostVars {
+		k := &ssa.Parameter{}
+		x.ghostKeys[gv.By] = k
+		st.Env[k] = env.asInt(env.eval(gv.Expr))
+	}
 	x.addCover(st, "requires", fn.Pos(), "precondition is satisfiable")
 	fr := &frame{fn: fn, args: args, entry: st.snapshot(), contract: ct, verify: true}
 	x.stack = []*ssa.Function{fn}
